@@ -69,7 +69,7 @@ iter:
 				}
 				pargs[i] = ta[n]
 			case slip.VectorLike:
-				if ta.Length() <= n { // Length() for vectors is the same as Dimensions()[0]
+				if activeLength(ta) <= n { // the elements in front of the fill pointer
 					break iter
 				}
 				pargs[i] = ta.Get(n)
